@@ -135,7 +135,15 @@ func (e *Engine) nilSlice(elem types.Type) *SliceV {
 func (e *Engine) loadHeap(st *State, obj *smt.Term, key string, t types.Type) Value {
 	rs := e.rd(st)
 	if s := scalarSort(t); s != nil {
-		return e.C.Select(e.heapArr(rs, key, s), obj)
+		v := e.C.Select(e.heapArr(rs, key, s), obj)
+		if s == smt.BV64 && len(st.Fresh) > 0 {
+			switch under(t).(type) {
+			case *types.Pointer, *types.Chan, *types.Map:
+				// references read from the heap were allocated before anything allocated later
+				e.preexistingBeforeFresh(st, v)
+			}
+		}
+		return v
 	}
 	switch u := under(t).(type) {
 	case *types.Slice:
@@ -920,6 +928,26 @@ func (e *Engine) freshRef(st *State, name string) *smt.Term {
 	st.Heap["$alloc"] = c.Store(a, r, c.True())
 	st.Fresh = append(st.Fresh, r)
 	return r
+}
+
+// preexistingBeforeFresh: a reference read from the heap is distinct from objects this
+// path allocated itself unless it was stored there by this path (then it is
+// syntactically one of them).
+func (e *Engine) preexistingBeforeFresh(st *State, r *smt.Term) {
+	if r.IsConst() || st.OldDepth > 0 {
+		return
+	}
+	for _, f := range st.Fresh {
+		if f == r {
+			return
+		}
+	}
+	if r.Op == smt.OSelect && r.Args[0].Op == smt.OVar {
+		// read from an initial (pre-state) heap array: certainly pre-existing
+		for _, f := range st.Fresh {
+			st.Assume(e.C.Not(e.C.Eq(r, f)))
+		}
+	}
 }
 
 // preexisting states that a reference/region term read from symbolic state is
